@@ -1,3 +1,41 @@
-From Coq Require Import List String.
-Example C08_placeholder : True. Proof. exact I. Qed.
-Print Assumptions C08_placeholder.
+(** C08 — searching a list returns exactly the entries that glob-match the search.  Property theorems only.
+    [glob_rel] (Search/GlobProofs.v) is the independent specification: "*" matches any run of characters except "/",
+    every other character matches itself ("?" one character, only reachable through an unapplied query). *)
+From Coq Require Import List String Ascii Bool Arith Permutation Sorted.
+From Spil Require Import Base.Str Base.Dict Base.Outcome Regex.Re Conf.Conf Conf.WF Sid.Sid
+  Search.Unfold Search.FindList Search.GlobProofs Search.FindListProofs Search.UnfoldProofs.
+From SpilGen Require Hamlet.
+Import ListNotations.
+Local Open Scope string_scope.
+
+(* glob2re + python re.match  =  the glob relation (incl. newlines inside names); None iff a "[...]" class is formed *)
+Theorem C08_glob2re : forall pat r e, glob2re pat = Some r -> (match_full r e = true <-> glob_rel pat e).
+Proof. exact glob2re_spec. Qed.
+Print Assumptions C08_glob2re.
+
+(* the number of segments must agree; matching is segment-wise *)
+Theorem C08_segmentwise : forall pat e, glob_rel pat e <-> Forall2 glob_rel (split_c "/" pat) (split_c "/" e).
+Proof. exact glob_segmentwise. Qed.
+Print Assumptions C08_segmentwise.
+
+(* exactly the entries matching at least one search form, each once *)
+Theorem C08_star_search : forall qs items l, star_search qs items = Ok l ->
+  NoDup l /\ forall e, In e l <-> In e items /\ exists q, In q qs /\ glob_match (s_string q) e = Ok true.
+Proof. exact star_search_spec. Qed.
+Print Assumptions C08_star_search.
+
+Theorem C08_star_search_glob : forall qs items l, star_search qs items = Ok l ->
+  forall e, In e l <-> In e items /\ exists q, In q qs /\ glob_rel (s_string q) e.
+Proof. exact star_search_glob_spec. Qed.
+Print Assumptions C08_star_search_glob.
+
+(* results are entries of the list *)
+Theorem C08_found_in_list : forall L items s l, find_list L items s = Ok l -> incl l items.
+Proof. exact find_list_incl. Qed.
+Print Assumptions C08_found_in_list.
+
+Example C08_instance :
+  find_list Hamlet.the_loaded ["hamlet/a/char/x"; "hamlet/a/char/x/model"; "hamlet/a/prop/y"; "junk"] "hamlet/a/*/*"
+  = Ok ["hamlet/a/char/x"; "hamlet/a/prop/y"].
+Proof. vm_compute. reflexivity. Qed.
+Print Assumptions C08_instance.
